@@ -111,7 +111,8 @@ class Ctx(object):
         denom = scale if scale > 0 else 1.0
         r = err / denom
         self.metric(name, r if scale > 0 else err)
-        if err > tol * scale + atol:
+        # 1e-290: results in the subnormal range (products of tiny but normal inputs that underflow) carry no relative accuracy
+        if err > tol * scale + atol + 1e-290:
             idx = np.unravel_index(np.argmax(np.abs(got - want)), got.shape)
             raise Violation(bucket or name,
                             '%s: max abs diff %.3e (rel %.3e, tol %.1e) at %s got %r want %r' % (
